@@ -60,6 +60,58 @@ def run(ctx):
                                                  "broken": "correspondence CfgLift.lift <-> control_flow_graph::lifting::build_basic_blocks"}, no_input=True)
         elif len(samples) < 3:
             samples.append({"source": src[:200], "cfg": real[:300]})
+    # ---- the consumer named in the property text: `run_complexity_analysis` computes `2 + edges - nodes` in unsigned arithmetic
+    #      (`C12_complexity_defined`: defined on every lifted CFG, = E - N + 2 >= 1). On the real SSA CFG of definitions with 0..45
+    #      decision points: the subtraction is defined, the number is the textbook `decisions + 1` of a structured program, the model's
+    #      `CfgLift.complexity` of the real CFG agrees, and CS0011 is reported exactly above 20.
+    import re as _re
+    csrcs = []
+    for k in [0, 1, 2, 18, 19, 20, 21, 22, 30, 45]:
+        csrcs.append("function f%d(a) { var s = 0; %s return s; }" % (k, " ".join("if (a > %d) { s += %d; }" % (j, j) for j in range(k))))
+        csrcs.append("function g%d(a) { var s = 0; %s return s; }" % (k, " ".join("if (a > %d) { s += 1; } else { s += 2; }" % j if j % 2 else "while (s < %d) { s += 1; }" % j for j in range(k))))
+    for k in [3, 19, 20, 21]:
+        body = "s += 1;"
+        for j in range(k):
+            body = ("for (var i%d = 0; i%d < 2; i%d++) { %s }" % (j, j, j, body)) if j % 3 == 0 else ("if (a == %d) { %s } else { s += 2; }" % (j, body)) if j % 3 == 1 else ("while (s < %d) { %s }" % (j, body))
+        csrcs.append("template N%d(a) { signal input x; signal output y; var s = 0; %s y <== x * s; }" % (k, body))
+    csrcs += [d[0] for d in defs[:(150 if ctx.tier == "quick" else 1500)]]
+    creplies = vlib.run_harness("defpasses", [json.dumps({"src": c, "curve": "BN254", "dump": True}) for c in csrcs])
+    creqs, cmeta = [], []
+    for c, r in zip(csrcs, creplies):
+        ir = json.loads(r) if r.startswith("{") else {"error": r}
+        if "ssa" not in ir:
+            if r.startswith("panic") or "panicked" in r:
+                l1 += 1
+                ctx.violation("complexity-crash", {"stage": "L1 the passes run on every lifted CFG", "source": c, "reply": r[:300], "broken": None})
+            continue
+        creqs.append("complexity " + vlib.sexp(ir["ssa"]))
+        cmeta.append((c, ir))
+    stats["complexity: definitions"] = len(cmeta)
+    stats["complexity: reported (CS0011)"] = 0
+    for (c, ir), m in zip(cmeta, vlib.run_model(creqs)):
+        parts = m.split()
+        decisions = len(_re.findall(r"\b(?:if|while|for)\s*\(", c))
+        flagged = any(x["id"] == "CS0011" for x in ir.get("reports", []))
+        stats["complexity: reported (CS0011)"] += flagged
+        if len(parts) != 5:
+            ctx.violation("complexity-model", {"stage": "L2", "source": c, "model": m, "broken": "driver command complexity"}, no_input=True)
+            continue
+        nodes, edges, mc, defined, too = int(parts[0]), int(parts[1]), int(parts[2]), parts[3], parts[4] == "true"
+        # independently of the model: nodes and edges counted on the dump
+        pn = len(ir["ssa"][5])
+        pe = sum(len(b[4]) for b in ir["ssa"][5])
+        if pe + 2 < pn or not (1 <= pe + 2 - pn <= decisions + 1):
+            l1 += 1
+            ctx.violation("complexity-undefined" if pe + 2 < pn else "complexity-value",
+                          {"stage": "L1 edges - nodes + 2 is defined, at least 1 and at most decisions + 1 on the real CFG (equal when the definition does not end in a branch)",
+                           "source": c, "nodes": pn, "edges": pe, "decision_points": decisions, "broken": None})
+        elif flagged != (pe + 2 - pn > 20):
+            l1 += 1
+            ctx.violation("complexity-report", {"stage": "L1 CS0011 exactly when edges - nodes + 2 > 20", "source": c, "complexity": pe + 2 - pn, "reported": flagged, "broken": None})
+        elif (nodes, edges, mc, defined) != (pn, pe, pe + 2 - pn, "defined") or too != flagged:
+            l2 += 1
+            ctx.violation("complexity-correspondence", {"stage": "L2 CfgLift.complexity / tooComplex vs run_complexity_analysis", "source": c, "model": m, "implementation": [pn, pe, flagged],
+                                                        "broken": "correspondence CfgLift.complexity <-> definition_complexity::run_complexity_analysis"}, no_input=True)
     if not ok:
         ctx.violation("theorem " + ";".join(failing)[:200], {"broken": "theorem", "failing": failing}, no_input=True)
     cov = ctx.coverage
